@@ -17,10 +17,38 @@ use subject::{Detect, GeneratedNormaliser, Real};
 use verif_common::{Tier, machinery_error};
 
 /// Insertion order of the compiler's conflict detector, recovered from its source at start-up.
-static DETECTOR: std::sync::OnceLock<subject::DetectorModel> = std::sync::OnceLock::new();
+/// `None` = the detector's source was not recognised: the pair law is not judged.
+static DETECTOR: std::sync::OnceLock<Option<subject::DetectorModel>> = std::sync::OnceLock::new();
+/// How the generated `domain_router()` assigns ids, recovered from `domain_router_init`.
+static ID_ASSIGNMENT: std::sync::OnceLock<subject::IdAssignment> = std::sync::OnceLock::new();
+
+fn pair_law_judged() -> bool {
+    DETECTOR.get().expect("detector model initialised in main").is_some()
+}
 
 fn detector() -> subject::DetectorModel {
-    *DETECTOR.get().expect("detector model initialised in main")
+    DETECTOR.get().expect("detector model initialised in main").expect("only called when the pair law is judged")
+}
+
+/// The generated router is known to insert `matchit_pattern()` of every guard in sorted order.
+fn generated_router_replica_in_sync() -> bool {
+    *ID_ASSIGNMENT.get().expect("id assignment initialised in main") == subject::IdAssignment::Canonical
+}
+
+/// Oracle 4 (source-level): the ids stored in the generated domain router must be the positions
+/// used for `domain_{i}` / `route_domain_{i}`.
+fn check_codegen_ids() -> Option<Finding> {
+    let mut notes = Vec::new();
+    match subject::id_assignment_from_source(&mut notes) {
+        subject::IdAssignment::Reordered { enumerated, because, statement } => Some(Finding {
+            key: "codegen:domain-ids-do-not-match-dispatch-table".into(),
+            what: format!(
+                "codegen/router.rs::domain_router_init numbers the guard patterns with `.enumerate()` applied to `{enumerated}`, a sequence the function itself rearranges (`{because}` in `{statement}`), while the per-domain routers and the dispatch arms (domain_{{i}}, route_domain_{{i}}) are numbered by the position of the guard in the sorted BTreeMap domain2path_router: whenever the rearrangement moves a guard (for a literal/templated partition e.g. `api.{{tenant}}.example.com` + `example.com`: sorted order puts the templated one first), a Host that fits guard A is dispatched to the routes registered under guard B"
+            ),
+            case: json!({"kind": "codegen-ids"}),
+        }),
+        _ => None,
+    }
 }
 
 fn sorted_only() -> bool {
@@ -311,6 +339,9 @@ impl PairClass {
 /// `skip_panic`: do not report a panicking insert order (it has its own key), judge the law with
 /// the insertion order(s) that work.
 fn check_pair(norm: &GeneratedNormaliser, g1: &str, g2: &str, hosts: &[String], skip_panic: bool) -> (Option<PairClass>, Option<Finding>) {
+    if !pair_law_judged() {
+        return (None, None);
+    }
     let (Real::Accepted { pattern: p1 }, Ok(r1)) = (subject::real_guard(g1), reference::validate(g1)) else {
         return (None, None);
     };
@@ -349,7 +380,7 @@ fn check_pair(norm: &GeneratedNormaliser, g1: &str, g2: &str, hosts: &[String], 
         return (None, None);
     }
     let (d_runtime, d_other) = if runtime_is_12 { (&d12, &d21) } else { (&d21, &d12) };
-    if *d_other == Detect::Accepted && matches!(d_runtime, Detect::Conflict { .. }) {
+    if generated_router_replica_in_sync() && *d_other == Detect::Accepted && matches!(d_runtime, Detect::Conflict { .. }) {
         return (None, Some(Finding {
             key: "pair:accepted-by-detector-but-generated-router-conflicts".into(),
             what: format!("guards {g1:?} + {g2:?} (patterns {p1:?}, {p2:?}): registered in one order the conflict detector accepts them ({d_other:?}), but the generated domain_router() inserts in sorted order, where matchit reports {d_runtime:?} and the unwrap panics at start-up"),
@@ -921,13 +952,16 @@ fn main() {
     if args.property != "C20" {
         machinery_error(&format!("rt_domain serves C20 only, got {:?}", args.property));
     }
-    let norm = match GeneratedNormaliser::from_source() {
-        Ok(n) => n,
-        Err(e) => machinery_error(&format!("generated host normalisation self-check: {e}")),
-    };
-    match subject::detector_model_from_source() {
-        Ok(o) => DETECTOR.set(o).unwrap(),
-        Err(e) => machinery_error(&format!("conflict detector self-check: {e}")),
+    // Replica self-checks against the source of the code under test. A structure the engine does
+    // not recognise is neither a verdict nor a machinery error: it is noted, recorded in the
+    // evidence, and only what depends on that replica is skipped.
+    let mut notes: Vec<subject::ReplicaNote> = Vec::new();
+    let leading_slash = matches!(subject::real_guard("a"), Real::Accepted { pattern } if pattern.starts_with('/'));
+    let norm = GeneratedNormaliser::from_source(leading_slash, &mut notes);
+    DETECTOR.set(subject::detector_model_from_source(&mut notes)).unwrap();
+    ID_ASSIGNMENT.set(subject::id_assignment_from_source(&mut notes)).unwrap();
+    for n in &notes {
+        println!("NOTE replica-out-of-sync: {}: {} -- {}", n.component, n.what, n.consequence);
     }
     if let Some(path) = &args.replay {
         std::process::exit(replay(&norm, &verif_common::load_replay(path)));
@@ -939,7 +973,10 @@ fn main() {
     // Self-check outcome: a changed (but understood) normalisation is followed by the engine and
     // additionally reported as such, so it can never be missed silently.
     let mut findings: Vec<Finding> = Vec::new();
-    if !norm.identical_to_expected {
+    if let Some(f) = check_codegen_ids() {
+        findings.push(f);
+    }
+    if norm.followed_from_source && !norm.identical_to_expected {
         println!(
             "NOTE generated host normalisation changed: `{}` is none of the forms rt_domain has a hard-wired copy of ({:?}); the engine follows the source",
             norm.chain_text,
@@ -1012,6 +1049,10 @@ fn main() {
     let mut pair_guards_raw: Vec<(String, String)> =
         st.accepted.iter().filter(|(g, _)| !g.ends_with('.')).cloned().collect();
     pair_guards_raw.sort();
+    if !pair_law_judged() {
+        println!("pairs: NOT JUDGED in this run (replica of detect_domain_conflicts out of sync, see NOTE above)");
+        pair_guards_raw.clear();
+    }
     // pair host universe: well-formed hosts without trailing dot up to pair_host_len (the router
     // only ever sees the normalised string, which is the same with and without the dot; the dot is
     // exercised in phase 2), identified by their normalised key.
@@ -1099,7 +1140,7 @@ fn main() {
             let mut class: Option<PairClass> = None;
             if matches!(d12, Detect::OtherInsertError { .. })
                 || matches!(d21, Detect::OtherInsertError { .. })
-                || (d21 == Detect::Accepted && matches!(d12, Detect::Conflict { .. }))
+                || (generated_router_replica_in_sync() && d21 == Detect::Accepted && matches!(d12, Detect::Conflict { .. }))
             {
                 suspicious = Some(vec![]);
             } else if !accepted {
@@ -1292,9 +1333,23 @@ fn main() {
             "what": "hosts that are not well-formed names (empty label / several trailing dots): how often a single accepted guard's router routes them; DESIGN §7 item 7: the generated normalisation strips ALL trailing dots although the guide says one",
             "ill_formed_hosts": st.odd_hist,
         },
-        "conflict_detector_model": format!("{:?}", detector()),
+        "replica_in_sync": notes.is_empty(),
+        "replica_notes": notes.iter().map(|n| json!({
+            "component": n.component, "what": n.what, "offending_snippet": n.snippet, "consequence": n.consequence,
+        })).collect::<Vec<_>>(),
+        "oracles_judged": {
+            "validator_and_pattern": true,
+            "single_guard_routing": true,
+            "single_guard_routing_normalisation": if norm.followed_from_source { "followed from the current generator source" } else { "LAST KNOWN-GOOD copy (current source not understood)" },
+            "pair_law": pair_law_judged(),
+            "pair_law_generated_router_build_order": pair_law_judged() && generated_router_replica_in_sync(),
+            "codegen_domain_ids": *ID_ASSIGNMENT.get().unwrap() != subject::IdAssignment::Unknown,
+        },
+        "conflict_detector_model": format!("{:?}", DETECTOR.get().unwrap()),
+        "domain_id_assignment": format!("{:?}", ID_ASSIGNMENT.get().unwrap()),
         "generated_normalisation": {
-            "source": norm.source_file, "chain": norm.chain_text, "identical_to_expected": norm.identical_to_expected,
+            "source": norm.source_file, "chain": norm.chain_text, "steps": format!("{:?}", norm.steps),
+            "identical_to_expected": norm.identical_to_expected, "followed_from_source": norm.followed_from_source,
         },
     });
     let code = rep.finish(
@@ -1302,7 +1357,7 @@ fn main() {
         coverage,
         &[
             "the in-process router built from H4's pattern is the router the generated server builds (domain_router_init inserts guard.matchit_pattern() verbatim); the generated code itself runs only in the e2e half",
-            "the replica of the generated host normalisation is kept in sync by a run-time comparison with the text of codegen/router.rs (unknown steps are a machinery error, known steps are followed)",
+            "the replicas of the generated host normalisation, of detect_domain_conflicts and of the domain id assignment are compared with the source text at run time: any composition of the known normalisation steps is followed; a structure that is not recognised is recorded under replica_notes (replica_in_sync=false) and only the oracle parts listed as false under oracles_judged are skipped",
             "hosts that are not well-formed DNS names (empty labels, more than one trailing dot) are outside the property's quantifier and only counted",
             "parameter VALUES captured by the router (they come out reversed character-wise) are not part of C20 and are not checked",
             "linking matchit 0.9.0 and http 1.4.0 as pinned by /repo/Cargo.lock",
@@ -1315,6 +1370,7 @@ fn main() {
 fn replay_quiet(norm: &GeneratedNormaliser, case: &Value) -> Option<String> {
     let s = |k: &str| case.get(k).and_then(|v| v.as_str()).unwrap_or_default().to_string();
     match case.get("kind").and_then(|k| k.as_str()) {
+        Some("codegen-ids") => check_codegen_ids().map(|f| f.key),
         Some("validator") => check_validator(&s("guard")).map(|f| f.key),
         Some("route") => check_route(norm, &s("guard"), &s("host")).2.map(|f| f.key),
         Some("pair") => {
@@ -1334,6 +1390,11 @@ fn replay(norm: &GeneratedNormaliser, case: &Value) -> i32 {
     println!("replaying {case}");
     let s = |k: &str| case.get(k).and_then(|v| v.as_str()).unwrap_or_default().to_string();
     let finding = match case.get("kind").and_then(|k| k.as_str()) {
+        Some("codegen-ids") => {
+            println!("  observed (codegen/router.rs::domain_router_init): {:?}", ID_ASSIGNMENT.get().unwrap());
+            println!("  expected: Canonical (ids = position of the guard in the sorted domain2path_router map)");
+            check_codegen_ids()
+        }
         Some("validator") => {
             let g = s("guard");
             println!("  observed (real validator via H4): {:?}", subject::real_guard(&g));
